@@ -38,6 +38,12 @@ CHECKS = {
  'C13': dict(cat='model_checking', engine='irsym', technique='symbolic execution (LLVM IR, own executor + z3, path forking) of the real construction API, encoder, decoder and re-encoder on bounded arbitrary valid programs with symbolic sizes, alignments, constants, settings and flags; field-wise and byte-wise equalities decided per path',
              text='decode(encode(P)) equals P field by field and encode(decode(encode(P))) equals encode(P) byte by byte for every value of the symbolic fields; every real opcode, 100-instruction and all-slots boundary programs.',
              note='names, variable kinds and instruction count concrete; integer fields 0..65534 (format range); alignment on arrays only; constants modulo size; interpreter cross-checked natively on random concrete recipes each run.', ref='DESIGN.md#c13'),
+ 'C04': dict(cat='translation_validation', engine='irsym', technique='symbolic execution of LLVM IR (own executor + z3): (a) regenerated emulator (tools/generate-emulation built from the tree) vs checked-in emulator per kernel, (b) C text emitted by the C back end for the one-instruction program of every opcode vs the emulator kernel, equality for all operand values',
+             text='Every kernel of the checked-in emulator is what the generator produces from the current opcode definitions; the generated C of every opcode equals emulation for all inputs (C-level UB inputs reported as UB-NOTE).',
+             note='C flags 0 (executor-based form); one-instruction programs, n=2; parameter-indexed loads under the precondition that the documented index is small and non-negative; multi-instruction C bodies in C07.', ref='DESIGN.md#c04'),
+ 'C18': dict(cat='translation_validation', engine='irsym+x86sym', technique='z3 floating-point theory with congruence abstraction of FP operations: (a) real emulator float kernels (LLVM IR) vs IEEE-with-flush reference, (b) emitted SSE/AVX machine code of float programs vs the emulation oracle on every feasible path under the MXCSR the code installs',
+             text='Bit equality for finite inputs, NaN-ness for NaN, either zero for min/max of zeros; all bit patterns.',
+             note='RNE at entry; quick tier does not claim machine-code bit equality for mul/div/sqrt/float->int (FP queries not decided in budget); x86 FTZ boundary class is a recorded known finding.', ref='DESIGN.md#c18'),
 }
 
 NOT_APPLICABLE = {
